@@ -38,6 +38,7 @@ type Universe struct {
 	Dir     string   // repo directory
 	Files   []string // compiled, non-test Go files of package mq (absolute)
 	NPkgs   int      // root packages matched by ./...
+	GoVer   string   // language version of the module ("go1.21"), from go.mod: decides e.g. loop-variable semantics
 }
 
 type importerFunc func(path string) (*types.Package, error)
@@ -84,6 +85,7 @@ func LoadUniverse(dir, arch string) (*Universe, error) {
 		return nil, fmt.Errorf("no packages matched ./... in %s", dir)
 	}
 	u := &Universe{Fset: fset, Imports: map[string]*types.Package{}, Arch: arch, Dir: dir}
+	u.GoVer = goVersionOf(dir)
 	var mq *packages.Package
 	for _, p := range pkgs {
 		if p.PkgPath == mqPath {
@@ -216,17 +218,19 @@ func (u *Universe) Build(label string, src Source) (*Prog, error) {
 			}
 			return nil, fmt.Errorf("import %q is not in the loaded universe", path)
 		}),
-		Sizes: u.Sizes,
-		Error: func(err error) { terrs = append(terrs, err) },
+		Sizes:     u.Sizes,
+		GoVersion: u.GoVer,
+		Error:     func(err error) { terrs = append(terrs, err) },
 	}
 	info := &types.Info{
-		Types:      map[ast.Expr]types.TypeAndValue{},
-		Defs:       map[*ast.Ident]types.Object{},
-		Uses:       map[*ast.Ident]types.Object{},
-		Implicits:  map[ast.Node]types.Object{},
-		Instances:  map[*ast.Ident]types.Instance{},
-		Scopes:     map[ast.Node]*types.Scope{},
-		Selections: map[*ast.SelectorExpr]*types.Selection{},
+		Types:        map[ast.Expr]types.TypeAndValue{},
+		Defs:         map[*ast.Ident]types.Object{},
+		Uses:         map[*ast.Ident]types.Object{},
+		Implicits:    map[ast.Node]types.Object{},
+		Instances:    map[*ast.Ident]types.Instance{},
+		Scopes:       map[ast.Node]*types.Scope{},
+		Selections:   map[*ast.SelectorExpr]*types.Selection{},
+		FileVersions: map[*ast.File]string{},
 	}
 	pkg := types.NewPackage(mqPath, "mq")
 	if err := types.NewChecker(tc, fset, pkg, info).Files(files); err != nil || len(terrs) > 0 {
@@ -262,4 +266,25 @@ func (p *Prog) Pos(pos token.Pos) string {
 	}
 	ps := p.Fset.Position(pos)
 	return fmt.Sprintf("%s:%d", filepath.Base(ps.Filename), ps.Line)
+}
+
+// goVersionOf reads the `go` directive of dir/go.mod ("go 1.21" -> "go1.21"); "" if there is none.
+func goVersionOf(dir string) string {
+	b, err := os.ReadFile(filepath.Join(dir, "go.mod"))
+	if err != nil {
+		return ""
+	}
+	for _, line := range strings.Split(string(b), "\n") {
+		f := strings.Fields(line)
+		if len(f) == 2 && f[0] == "go" {
+			v := f[1]
+			// language version: major.minor only
+			parts := strings.Split(v, ".")
+			if len(parts) >= 2 {
+				return "go" + parts[0] + "." + parts[1]
+			}
+			return "go" + v
+		}
+	}
+	return ""
 }
